@@ -58,7 +58,13 @@ Definition run_requester (slot : N) (ct : content) (expected : blockhash) (steps
                       | IStart _ => true
                       | IResp p => if must_ignore expected prev_out p
                                    then sameset_req prev_out (rs_outst st) && match rs_sent st with [] => true | _ => false end
-                                   else true
+                                   else (* progress: a correct answer to an outstanding request is consumed (the request is
+                                           no longer outstanding) unless the fetch was started over and asks again *)
+                                        match p with
+                                        | PNack _ => true
+                                        | _ => negb (existsb (rreq_eqb (resp_req p)) (rs_outst st))
+                                               || existsb (rreq_eqb (resp_req p)) (rs_sent st)
+                                        end
                       end
                    (* the fetch is alive until the block is stored *)
                    && (rs_have st || match rs_outst st with [] => false | _ => true end) in
@@ -85,7 +91,13 @@ Definition run_requester_steps (slot : N) (ct : content) (expected : blockhash) 
                       | IStart _ => true
                       | IResp p => if must_ignore expected prev_out p
                                    then sameset_req prev_out (rs_outst st) && match rs_sent st with [] => true | _ => false end
-                                   else true
+                                   else (* progress: a correct answer to an outstanding request is consumed (the request is
+                                           no longer outstanding) unless the fetch was started over and asks again *)
+                                        match p with
+                                        | PNack _ => true
+                                        | _ => negb (existsb (rreq_eqb (resp_req p)) (rs_outst st))
+                                               || existsb (rreq_eqb (resp_req p)) (rs_sent st)
+                                        end
                       end
                    && (rs_have st || match rs_outst st with [] => false | _ => true end) in
                  let f := N.lor (if model_ok then 0 else 1) (if prop_ok then 0 else 2) in
